@@ -19,7 +19,7 @@ def snapshot(root, skip):
             dirs[:] = []
             continue
         st = os.lstat(d)
-        out[d] = ("dir", st.st_mtime_ns if os.path.abspath(d) != os.path.abspath(root) and os.path.abspath(skip) != os.path.join(os.path.abspath(d), os.path.basename(skip)) else 0)
+        out[d] = ("dir", st.st_mode, st.st_mtime_ns if os.path.abspath(d) != os.path.abspath(root) and os.path.abspath(skip) != os.path.join(os.path.abspath(d), os.path.basename(skip)) else 0)
         for f in files:
             p = os.path.join(d, f)
             st = os.lstat(p)
@@ -27,7 +27,7 @@ def snapshot(root, skip):
                 h = hashlib.sha1(open(p, "rb").read()).hexdigest()
             except OSError:
                 h = "?"
-            out[p] = ("file", st.st_size, st.st_mtime_ns, h)
+            out[p] = ("file", st.st_mode, st.st_size, st.st_mtime_ns, h)
     return out
 
 
@@ -129,6 +129,17 @@ def run(ctx):
         if mode.startswith("single"):
             n_ = rng.choice(names)
             args.append(n_.decode("latin-1"))
+        # entries of the working directory that carry the same names as entries of the image (a path built from the raw name instead
+        # of the sanitised output name lands on them when -d is used): a file and a directory, with distinctive modes
+        plain = [n_ for n_ in tree if n_ not in (b".", b"..") and b"/" not in n_ and b"\\" not in n_ and all(32 < c < 127 for c in n_)]
+        for k_, n_ in enumerate(plain[:2]):
+            twin = os.path.join(cwd, n_.decode("latin-1"))
+            if os.path.abspath(twin) == os.path.abspath(outdir) or os.path.exists(twin):
+                continue
+            if k_ == 0:
+                os.mkdir(twin); os.chmod(twin, 0o751)
+            else:
+                open(twin, "w").write("twin of an image entry"); os.chmod(twin, 0o640)
         before = snapshot(top, outdir)
         abs_before = {p: os.path.exists(p) for p in ("/abs_evil", "/abs2")}
         try:
